@@ -1,6 +1,7 @@
 //! Verification harness library for unimock: universe of mocked traits, run-time clause specs,
 //! reference model, observation helpers, exploration utilities and the controlled scheduler.
 
+pub mod composite;
 pub mod engine_s;
 pub mod explore;
 pub mod gsupport;
